@@ -361,6 +361,43 @@ fn explore(ctx: &mut Ctx) {
             }
         }
     }
+    // huge chunk / window sizes (valid for std: any non-zero size) and huge zero-sized slices
+    let big = [usize::MAX, usize::MAX - 1, usize::MAX / 2 + 1, isize::MAX as usize];
+    for len in 0..=8usize {
+        let sizes: Vec<usize> = big.iter().copied().chain([usize::MAX - len, (usize::MAX - len).wrapping_add(1), usize::MAX - 2 * len]).collect();
+        for &size in &sizes {
+            if size == 0 {
+                continue;
+            }
+            for kind in [Kind::Windows, Kind::Chunks, Kind::RChunks, Kind::ChunksExact, Kind::RChunksExact] {
+                for variant in VARIANTS {
+                    for unit in [false, true] {
+                        for hist in 0..8u64 {
+                            eval(ctx, Case { kind, variant, unit, len, size, hist, steps: 3 });
+                        }
+                    }
+                }
+            }
+        }
+    }
+    for len in [usize::MAX, usize::MAX - 1, usize::MAX - 5, isize::MAX as usize + 3] {
+        for size in [1usize, 2, 7, 1 << 40, isize::MAX as usize, usize::MAX - 1, usize::MAX] {
+            for kind in KINDS {
+                if matches!(kind, Kind::Iter | Kind::IterCopied) && size != 1 {
+                    continue;
+                }
+                if kind == Kind::ArrayChunks && size > 5 {
+                    continue;
+                }
+                for variant in VARIANTS {
+                    for hist in 0..16u64 {
+                        eval(ctx, Case { kind, variant, unit: true, len, size, hist, steps: 4 });
+                    }
+                }
+            }
+        }
+    }
+    ctx.exhaustive_part("huge sizes {usize::MAX, MAX-1, MAX/2+1, isize::MAX, MAX-len, MAX-len+1, MAX-2len} on lengths 0..=8, and zero-sized slices of length {usize::MAX, MAX-1, MAX-5, isize::MAX+3} x sizes {1,2,7,2^40,isize::MAX,MAX-1,MAX}: all histories of 3-4 steps");
     ctx.exhaustive_part(&format!("lengths 0..={max_len} x sizes 1..={} x 8 iterator kinds x {{fwd,rev,rev.rev}} x {{u16,()}} x all 2^(items+2) histories; size 0 panics", max_len + 1));
     let n = ctx.by_tier(200_000, 3_000_000);
     let strat = (0usize..8, 0usize..3, any::<bool>(), 0usize..41, 1usize..12, any::<u64>());
